@@ -74,7 +74,6 @@ func c19(r *core.Report) {
 	r.Trusted = []string{"go/types, go/ssa (x/tools v0.29.0)"}
 	cmp := needFn(r, "p/kademlia", "DistanceCmp")
 	lt := needFn(r, "p/kademlia", "DistanceLt")
-	gt := needFn(r, "p/kademlia", "DistanceGt")
 	forEach := needFn(r, "p/kademlia", "Cache.ForEach")
 	closest := needFn(r, "p/kademlia", "Cache.Closest")
 	closer := needFn(r, "p/kademlia", "Cache.ForEachCloser")
@@ -87,114 +86,7 @@ func c19(r *core.Report) {
 
 	// ---- C19-CMP-SHAPE
 	r.Rule("C19-CMP-SHAPE", "DistanceCmp compares x[i]^a[i] with x[i]^b[i] from the first byte on; DistanceLt/Gt are its sign", 4)
-	{
-		x, a, b := cmp.Params[0], cmp.Params[1], cmp.Params[2]
-		// byte loads: value -> (slice param, index value)
-		elem := func(v ssa.Value) (ssa.Value, ssa.Value) {
-			u, ok := core.Through(v).(*ssa.UnOp)
-			if !ok || u.Op != token.MUL {
-				return nil, nil
-			}
-			ia, ok := u.X.(*ssa.IndexAddr)
-			if !ok {
-				return nil, nil
-			}
-			return core.Through(ia.X), ia.Index
-		}
-		xorOf := func(v ssa.Value) (other ssa.Value, idx ssa.Value, ok bool) {
-			bo, isB := core.Through(v).(*ssa.BinOp)
-			if !isB || bo.Op != token.XOR {
-				return nil, nil, false
-			}
-			s1, i1 := elem(bo.X)
-			s2, i2 := elem(bo.Y)
-			if s1 == nil || s2 == nil || i1 != i2 {
-				return nil, nil, false
-			}
-			switch {
-			case s1 == ssa.Value(x):
-				return s2, i1, true
-			case s2 == ssa.Value(x):
-				return s1, i1, true
-			}
-			return nil, nil, false
-		}
-		var idxPhi *ssa.Phi
-		okNeg, okPos, nCmp := false, false, 0
-		for _, in := range core.AllInstrs(cmp) {
-			iff, ok := in.(*ssa.If)
-			if !ok {
-				continue
-			}
-			c, ok := iff.Cond.(*ssa.BinOp)
-			if !ok || (c.Op != token.LSS && c.Op != token.GTR) {
-				continue
-			}
-			l, li, ok1 := xorOf(c.X)
-			rr, ri, ok2 := xorOf(c.Y)
-			if !ok1 || !ok2 || li != ri {
-				continue
-			}
-			nCmp++
-			if ph, isPhi := li.(*ssa.Phi); isPhi {
-				idxPhi = ph
-			}
-			// which constant does the true edge return?
-			tb := iff.Block().Succs[0]
-			ret, isRet := tb.Instrs[len(tb.Instrs)-1].(*ssa.Return)
-			if !isRet || len(ret.Results) != 1 {
-				continue
-			}
-			k, isK := core.ConstInt(ret.Results[0])
-			if !isK {
-				continue
-			}
-			// normalise to "left < right"
-			left, right := l, rr
-			if c.Op == token.GTR {
-				left, right = rr, l
-			}
-			if left == ssa.Value(a) && right == ssa.Value(b) && k == -1 {
-				okNeg = true
-			}
-			if left == ssa.Value(b) && right == ssa.Value(a) && k == 1 {
-				okPos = true
-			}
-		}
-		r.Check(nCmp == 2 && okNeg && okPos, "C19-CMP-SHAPE", "DistanceCmp first difference", p.Pos(cmp.Pos()), "returns -1 when x[i]^a[i] < x[i]^b[i] and 1 when x[i]^b[i] < x[i]^a[i], both at the same index", "DistanceCmp does not return -1 / 1 on the first byte where x^a and x^b differ, in that orientation: the order is not the byte-wise order of XOR distances")
-		ascending := false
-		if idxPhi != nil {
-			step, start := phiStep(idxPhi)
-			k, isK := core.ConstInt(start)
-			ascending = step > 0 && isK && k == 0
-		}
-		r.Check(ascending, "C19-CMP-SHAPE", "DistanceCmp most significant byte first", p.Pos(cmp.Pos()), "the byte index starts at 0 and increases", "DistanceCmp does not walk the bytes from index 0 upward: distances are not compared most significant byte first")
-		sign := func(fn *ssa.Function, op token.Token) bool {
-			for _, ret := range core.Returns(fn) {
-				for _, v := range core.ReturnValues(ret, 0) {
-					bo, ok := core.Through(v).(*ssa.BinOp)
-					if !ok || bo.Op != op {
-						return false
-					}
-					c, ok := core.Through(bo.X).(*ssa.Call)
-					if !ok || !core.IsCallToFn(c.Common(), cmp) {
-						return false
-					}
-					if k, isK := core.ConstInt(bo.Y); !isK || k != 0 {
-						return false
-					}
-					for i := 0; i < 3; i++ {
-						if core.Through(c.Call.Args[i]) != ssa.Value(fn.Params[i]) {
-							return false
-						}
-					}
-				}
-			}
-			return true
-		}
-		r.Check(sign(lt, token.LSS), "C19-CMP-SHAPE", "DistanceLt", p.Pos(lt.Pos()), "DistanceLt(x,a,b) is DistanceCmp(x,a,b) < 0", "DistanceLt is not DistanceCmp(x,a,b) < 0 on its own arguments in order")
-		r.Check(sign(gt, token.GTR), "C19-CMP-SHAPE", "DistanceGt", p.Pos(gt.Pos()), "DistanceGt(x,a,b) is DistanceCmp(x,a,b) > 0", "DistanceGt is not DistanceCmp(x,a,b) > 0 on its own arguments in order")
-	}
+	ruleCmpShape(r, "C19-CMP-SHAPE")
 
 	// ---- C19-CMP-ORIENT
 	r.Rule("C19-CMP-ORIENT", "every sort comparator in the package is DistanceLt(key, a.id, b.id) with the comparator's parameters in order", 2)
@@ -508,4 +400,219 @@ func c19(r *core.Report) {
 		r.Check(stops, "C19-CLOSEST", "Cache.ForEachCloser stops at the first farther entry", p.Pos(closer.Pos()), "the enumeration stops when an entry is not nearer than the locus", "ForEachCloser keeps enumerating after an entry that is not nearer than the locus without forwarding: harmless for completeness, but then the early stop elsewhere is inconsistent")
 	}
 	_ = fmt.Sprintf
+}
+
+// phiStride: the absolute constant a loop phi advances by (0 if not a constant step).
+func phiStride(phi *ssa.Phi) int64 {
+	for _, e := range phi.Edges {
+		b, ok := e.(*ssa.BinOp)
+		if ok && core.Through(b.X) == ssa.Value(phi) && (b.Op == token.ADD || b.Op == token.SUB) {
+			if k, isK := core.ConstInt(b.Y); isK {
+				if k < 0 {
+					k = -k
+				}
+				return k
+			}
+		}
+	}
+	return 0
+}
+
+// ruleCmpShape (shared by C19, C20 — every DHT decision goes through DistanceLt — and C18, whose
+// bucket index is LeadingZeros of a distance): the byte-wise comparator, its tie-break on lengths, its
+// two signs, and the leading-zero count.
+func ruleCmpShape(r *core.Report, ruleID string) {
+	p := r.P
+	cmp := needFn(r, "p/kademlia", "DistanceCmp")
+	lt := needFn(r, "p/kademlia", "DistanceLt")
+	gt := needFn(r, "p/kademlia", "DistanceGt")
+	lzf := needFn(r, "p/kademlia", "LeadingZeros")
+	if cmp == nil || lt == nil || gt == nil || lzf == nil {
+		return
+	}
+	{
+		x, a, b := cmp.Params[0], cmp.Params[1], cmp.Params[2]
+		// byte loads: value -> (slice param, index value)
+		elem := func(v ssa.Value) (ssa.Value, ssa.Value) {
+			u, ok := core.Through(v).(*ssa.UnOp)
+			if !ok || u.Op != token.MUL {
+				return nil, nil
+			}
+			ia, ok := u.X.(*ssa.IndexAddr)
+			if !ok {
+				return nil, nil
+			}
+			return core.Through(ia.X), ia.Index
+		}
+		xorOf := func(v ssa.Value) (other ssa.Value, idx ssa.Value, ok bool) {
+			bo, isB := core.Through(v).(*ssa.BinOp)
+			if !isB || bo.Op != token.XOR {
+				return nil, nil, false
+			}
+			s1, i1 := elem(bo.X)
+			s2, i2 := elem(bo.Y)
+			if s1 == nil || s2 == nil || i1 != i2 {
+				return nil, nil, false
+			}
+			switch {
+			case s1 == ssa.Value(x):
+				return s2, i1, true
+			case s2 == ssa.Value(x):
+				return s1, i1, true
+			}
+			return nil, nil, false
+		}
+		var idxPhi *ssa.Phi
+		okNeg, okPos, nCmp := false, false, 0
+		for _, in := range core.AllInstrs(cmp) {
+			iff, ok := in.(*ssa.If)
+			if !ok {
+				continue
+			}
+			c, ok := iff.Cond.(*ssa.BinOp)
+			if !ok || (c.Op != token.LSS && c.Op != token.GTR) {
+				continue
+			}
+			l, li, ok1 := xorOf(c.X)
+			rr, ri, ok2 := xorOf(c.Y)
+			if !ok1 || !ok2 || li != ri {
+				continue
+			}
+			nCmp++
+			if ph, isPhi := li.(*ssa.Phi); isPhi {
+				idxPhi = ph
+			}
+			// which constant does the true edge return?
+			tb := iff.Block().Succs[0]
+			ret, isRet := tb.Instrs[len(tb.Instrs)-1].(*ssa.Return)
+			if !isRet || len(ret.Results) != 1 {
+				continue
+			}
+			k, isK := core.ConstInt(ret.Results[0])
+			if !isK {
+				continue
+			}
+			// normalise to "left < right"
+			left, right := l, rr
+			if c.Op == token.GTR {
+				left, right = rr, l
+			}
+			if left == ssa.Value(a) && right == ssa.Value(b) && k == -1 {
+				okNeg = true
+			}
+			if left == ssa.Value(b) && right == ssa.Value(a) && k == 1 {
+				okPos = true
+			}
+		}
+		r.Check(nCmp == 2 && okNeg && okPos, ruleID, "DistanceCmp first difference", p.Pos(cmp.Pos()), "returns -1 when x[i]^a[i] < x[i]^b[i] and 1 when x[i]^b[i] < x[i]^a[i], both at the same index", "DistanceCmp does not return -1 / 1 on the first byte where x^a and x^b differ, in that orientation: the order is not the byte-wise order of XOR distances")
+		ascending := false
+		if idxPhi != nil {
+			step, start := phiStep(idxPhi)
+			k, isK := core.ConstInt(start)
+			ascending = step > 0 && isK && k == 0 && phiStride(idxPhi) == 1
+		}
+		r.Check(ascending, ruleID, "DistanceCmp most significant byte first", p.Pos(cmp.Pos()), "the byte index starts at 0 and increases", "DistanceCmp does not walk the bytes from index 0 upward: distances are not compared most significant byte first")
+		sign := func(fn *ssa.Function, op token.Token) bool {
+			for _, ret := range core.Returns(fn) {
+				for _, v := range core.ReturnValues(ret, 0) {
+					bo, ok := core.Through(v).(*ssa.BinOp)
+					if !ok || bo.Op != op {
+						return false
+					}
+					c, ok := core.Through(bo.X).(*ssa.Call)
+					if !ok || !core.IsCallToFn(c.Common(), cmp) {
+						return false
+					}
+					if k, isK := core.ConstInt(bo.Y); !isK || k != 0 {
+						return false
+					}
+					for i := 0; i < 3; i++ {
+						if core.Through(c.Call.Args[i]) != ssa.Value(fn.Params[i]) {
+							return false
+						}
+					}
+				}
+			}
+			return true
+		}
+		r.Check(sign(lt, token.LSS), ruleID, "DistanceLt", p.Pos(lt.Pos()), "DistanceLt(x,a,b) is DistanceCmp(x,a,b) < 0", "DistanceLt is not DistanceCmp(x,a,b) < 0 on its own arguments in order")
+		r.Check(sign(gt, token.GTR), ruleID, "DistanceGt", p.Pos(gt.Pos()), "DistanceGt(x,a,b) is DistanceCmp(x,a,b) > 0", "DistanceGt is not DistanceCmp(x,a,b) > 0 on its own arguments in order")
+	}
+
+
+	// tie-break after the loop: 0 is returned only when x is exhausted (len(x) == l, so the two
+	// distances are the same string) or when a and b have the same length
+	{
+		x, a, b := cmp.Params[0], cmp.Params[1], cmp.Params[2]
+		bd := core.NewBounds(p)
+		bd.MinFuncs = map[*ssa.Function]string{}
+		if mf := p.Func("p/kademlia", "min"); mf != nil {
+			bd.MinFuncs[mf] = "audited contract: returns the smallest of its variadic arguments"
+		}
+		var l ssa.Value
+		for _, in := range core.AllInstrs(cmp) {
+			if c, ok := in.(*ssa.Call); ok {
+				if g := core.StaticCallee(c.Common()); g != nil && g.Name() == "min" {
+					l = c
+				}
+			}
+		}
+		okTie, nZero := true, 0
+		for _, ret := range core.Returns(cmp) {
+			for _, v := range core.ReturnValues(ret, 0) {
+				k, isK := core.ConstInt(v)
+				if !isK || k != 0 {
+					continue
+				}
+				nZero++
+				exhausted := l != nil && bd.ProveLenLE(ret, x, l)
+				sameLen := bd.ProveLenLenLE(ret, a, b) && bd.ProveLenLenLE(ret, b, a)
+				if !exhausted && !sameLen {
+					okTie = false
+				}
+			}
+		}
+		r.Check(nZero > 0 && okTie, ruleID, "DistanceCmp tie", p.Pos(cmp.Pos()), "0 is returned only when the key is exhausted (len(x) == common length) or a and b have equal length", "DistanceCmp can return 0 for keys of different length although the query key extends beyond their common prefix: a key and its extension compare as equally distant, the sort comparator stops being a strict weak order and ForEach / Closest / ForEachCloser misorder or drop entries")
+	}
+	// LeadingZeros: whatever unit the loop advances by, the count grows by 8 bits per byte skipped
+	{
+		okLZ := true
+		why := ""
+		n := 0
+		for _, in := range core.AllInstrs(lzf) {
+			add, ok := in.(*ssa.BinOp)
+			if !ok || add.Op != token.ADD {
+				continue
+			}
+			k, isK := core.ConstInt(add.Y)
+			if !isK || k < 8 {
+				continue // the data-dependent increment (bits.LeadingZeros8) or the index step
+			}
+			// a constant credit of k bits: the same loop must consume k/8 bytes (x = x[s:] or i += s)
+			n++
+			stride := int64(0)
+			for _, in2 := range core.AllInstrs(lzf) {
+				switch y := in2.(type) {
+				case *ssa.Slice:
+					if y.Block() == add.Block() && y.Low != nil && y.High == nil {
+						if s2, isS := core.ConstInt(y.Low); isS {
+							stride = s2
+						}
+					}
+				case *ssa.BinOp:
+					if y != add && y.Op == token.ADD && y.Block() == add.Block() {
+						if s2, isS := core.ConstInt(y.Y); isS && s2 >= 2 && s2 != k {
+							stride = s2
+						}
+					}
+				}
+			}
+			if stride*8 != k {
+				okLZ = false
+				why = fmt.Sprintf("a step that skips %d byte(s) credits %d leading zero bits", stride, k)
+			}
+		}
+		_ = n
+		r.Check(okLZ, ruleID, "LeadingZeros unit", p.Pos(lzf.Pos()), "every constant credit of leading zeros is 8 bits per byte skipped", "LeadingZeros miscounts: "+why+": keys sharing a long prefix with the locus get a far too low bucket index, so the cache sheds its nearest entries first and the bucket order is not the distance order")
+	}
 }
